@@ -285,11 +285,23 @@ func (t *Tree) Extend(parent *Node, prof Profile) *Node {
 	}
 	bb := parent.L.NewBuilder(t.Rng)
 	bb.FarEnds = prof.FarSharedEnds
-	t.RandomBody(bb, prof)
+	passThrough := prof.WalletHeavy && t.Rng.IntN(7) == 0
+	if passThrough {
+		// a block in which the wallet only passes one output through: it gains
+		// and loses it within the block, keeps nothing, and is not the miner
+		passThrough = bb.PassThrough(t.Env.A(Wallet))
+	}
+	if !passThrough {
+		t.RandomBody(bb, prof)
+	}
 	child := parent.Height + 1
 	v2 := child >= t.Env.Net.HardforkV2.AllowHeight && (child >= t.Env.Net.HardforkV2.RequireHeight || t.Rng.IntN(3) != 0)
-	blk := bb.Seal(t.nextTimestamp(parent, true), t.minerFor(prof), v2)
-	if blk.V2 == nil && t.Rng.IntN(4) == 0 {
+	miner := t.minerFor(prof)
+	if passThrough {
+		miner = t.Env.A(Miner).Addr
+	}
+	blk := bb.Seal(t.nextTimestamp(parent, true), miner, v2)
+	if blk.V2 == nil && !passThrough && t.Rng.IntN(4) == 0 {
 		// v1 blocks may split the miner payout over several outputs
 		half := blk.MinerPayouts[0].Value.Div64(2)
 		if !half.IsZero() {
